@@ -9,7 +9,7 @@
 (***************************************************************************)
 EXTENDS HexSrec, Json
 
-CONSTANTS Fmts, Seeds, MaxRecs, AllowMixed, NCorrupt, Lens, Subst0
+CONSTANTS Fmts, Seeds, MaxRecs, AllowMixed, NCorrupt, Lens, Subst0, WithRelocs
 
 VARIABLES fmt, rs, rnd, st
 vars == <<fmt, rs, rnd, st>>
@@ -88,18 +88,31 @@ Corruption(L, j) ==
       c0 == AlphaSeq[1 + (Rb(x, 5) % Len(AlphaSeq))]
       c  == IF c0 = L[k][i] THEN (IF c0 = 49 THEN 50 ELSE 49) ELSE c0
   IN [line |-> k - 1, pos |-> i - 1, ch |-> c, verdict |-> ParsedRec(Parse(fmt, Subst(L[k], i, c)))]
+\* ---- histories after loading (C15): RawExec.relocate(v) moves the image so that its lowest mapped address becomes v
+\* and sets the program counter to v; the bytes keep their offsets from the start of the image.  Addresses as 8 digits.
+NonEmpty(B) == {k \in DOMAIN B : Len(B[k].d) > 0}
+LowestOf(B) == LET K == NonEmpty(B)  k == CHOOSE k \in K : \A j \in K : LeqD(B[k].a, B[j].a) IN Widen(B[k].a, 8)
+MovedTo(FB, lo, v) == Tup([k \in 1..Len(FB) |-> [a |-> AddD(v, SubD(Widen(FB[k].a, 8), lo)), d |-> FB[k].d]])
+RelocTargets == << <<0, 16 * (1 + (Rb(rnd, 31) % 15)), Rb(rnd, 32) % 128, 0, 0, 0, 0, 0>>,
+                   <<Rb(rnd, 33), Rb(rnd, 34), Rb(rnd, 35) % 64, 0, 0, 0, 0, 0>>,
+                   <<0, 4 * (Rb(rnd, 36) % 4), 0, 0, 0, 0, 0, 0>> >>
+\* (streams with a data record that carries no byte are not relocated: whether an empty record marks the start of the image is not defined)
+RelocsOf(B, FB) == IF ~WithRelocs \/ B = <<>> \/ NonEmpty(B) # DOMAIN B THEN <<>>
+                  ELSE LET lo == LowestOf(B) IN Tup([i \in 1..3 |-> [v |-> RelocTargets[i], finals |-> MovedTo(FB, lo, RelocTargets[i])]])
 EmitRaw == LET d == rs[1].data  blk == << [a |-> <<0, 0, 0, 0>>, d |-> d] >> IN
   PrintT(ToJson([fmt |-> fmt, lines |-> <<d>>, recs |-> <<>>, rt |-> TRUE, blocks |-> blk, finals |-> blk, entry |-> NoEntry,
-                 mixed |-> FALSE, corrupt |-> <<>>]))
+                 mixed |-> FALSE, corrupt |-> <<>>, relocs |-> RelocsOf(blk, blk),
+                 pre |-> <<1, (Len(d) + 1) \div 2, Len(d)>>]))       \* pre: stream positions at which the raw task is also built directly
 Emit == st = "done" => IF fmt = "raw" THEN EmitRaw ELSE
   LET L == Tup([k \in 1..Len(rs) |-> Line(fmt, rs[k])])
       D == Decode(fmt, rs)
+      FIN == Tup([k \in 1..Len(D.blocks) |->          \* what each block's range reads as once all are written
+                   [a |-> D.blocks[k].a, d |-> ViewAfter(Unmapped(Len(D.blocks[k].d)), D.blocks[k].a, D.blocks, 1)]])
   IN PrintT(ToJson([fmt |-> fmt, lines |-> L,
                     recs |-> Tup([k \in 1..Len(rs) |-> ParsedRec(Parse(fmt, L[k]))]),
                     rt |-> \A k \in DOMAIN rs : SameRec(Parse(fmt, L[k]), rs[k]),
                     blocks |-> D.blocks, entry |-> D.entry,
-                    finals |-> Tup([k \in 1..Len(D.blocks) |->          \* what each block's range reads as once all are written
-                                     [a |-> D.blocks[k].a, d |-> ViewAfter(Unmapped(Len(D.blocks[k].d)), D.blocks[k].a, D.blocks, 1)]]),
+                    finals |-> FIN, relocs |-> RelocsOf(D.blocks, FIN), pre |-> <<>>,
                     mixed |-> (fmt = "hex" /\ HexMixed(rs)),
                     corrupt |-> Tup([j \in 1..NCorrupt |-> Corruption(L, j)])]))
 =============================================================================
